@@ -537,12 +537,12 @@ pub fn xpath_query_op(kind: &str, a: &Args) -> Option<Outcome> {
         "node_test" => {
             let d = "<r x='1' y='2'>t<a/><!--c--><?p d?><b>u<c/></b><![CDATA[z]]></r>";
             let (_, doc) = xml_dom::XmlDocument::from_raw(d).ok()?;
-            let table: [(&str, &str); 14] = [
+            let table: [(&str, &str); 16] = [
                 ("count(/r/*)", "2"), ("count(/r/node())", "6"), ("count(/r/text())", "2"), ("count(/r/comment())", "1"),
                 ("count(/r/processing-instruction())", "1"), ("count(/r/processing-instruction('p'))", "1"),
                 ("count(/r/processing-instruction('q'))", "0"), ("count(/r/@*)", "2"), ("count(//*)", "4"), ("count(/r/b/*)", "1"),
                 ("count(/r/child::*)", "2"), ("count(/r/descendant::*)", "3"), ("count(/r/a/following-sibling::*)", "1"),
-                ("count(/r/b/preceding-sibling::*)", "1"),
+                ("count(/r/b/preceding-sibling::*)", "1"), ("count(/r/namespace::*)", "1"), ("count(/r/namespace::node())", "1"),
             ];
             let (query, want) = table.iter().find(|t| t.0 == q.as_str()).copied()?;
             let observed = guard(|| show_query(&doc, query, &mut Context::default()));
@@ -657,6 +657,116 @@ pub fn dom_tree_atomic(scenario: &str) -> Outcome {
     Outcome { observed, expected, note: "a refused mutator must leave the serialization and every order key unchanged".into() }
 }
 
+// ------------------------------------------------------------------------------------------------
+// C12 / C14 after DOM edit histories (bounded stand-in material): navigational views agree; keys of attached nodes are
+// non-zero and pairwise distinct
+
+pub const EDIT_SCENARIOS: [&str; 8] = [
+    "move_within_parent_before", "move_within_parent_append", "move_between_parents", "remove_then_reinsert",
+    "remove_subtree_drop_then_set_attribute", "replace_child", "append_fragment_like_sequence", "split_text_then_move",
+];
+
+pub fn dom_after_edits(scenario: &str, what: &str) -> Outcome {
+    use xml_dom::{Document, DocumentMut, Element, ElementMut, NamedNodeMap, Node, NodeList, NodeMut, TextMut};
+    fn views(n: &xml_dom::XmlNode, bad: &mut Vec<String>) {
+        let kids: Vec<xml_dom::XmlNode> = n.child_nodes().iter().collect();
+        for (i, c) in kids.iter().enumerate() {
+            match c.parent_node() {
+                Some(p) if p.id() == n.id() => {}
+                other => bad.push(format!("{} lists {} whose parent_node is {:?}", n.node_name(), c.node_name(), other.map(|v| v.node_name()))),
+            }
+            let prev = c.previous_sibling().map(|v| v.id());
+            let next = c.next_sibling().map(|v| v.id());
+            if prev != (if i > 0 { Some(kids[i - 1].id()) } else { None }) {
+                bad.push(format!("previous_sibling of child {} of {} disagrees with the child list", i, n.node_name()));
+            }
+            if next != kids.get(i + 1).map(|v| v.id()) {
+                bad.push(format!("next_sibling of child {} of {} disagrees with the child list", i, n.node_name()));
+            }
+            if kids.iter().filter(|k| k.id() == c.id()).count() != 1 {
+                bad.push(format!("{} occurs more than once under {}", c.node_name(), n.node_name()));
+            }
+            views(c, bad);
+        }
+        if n.first_child().map(|v| v.id()) != kids.first().map(|v| v.id()) || n.last_child().map(|v| v.id()) != kids.last().map(|v| v.id()) {
+            bad.push(format!("first_child / last_child of {} disagree with the child list", n.node_name()));
+        }
+    }
+    fn keys(n: &xml_dom::XmlNode, all: &mut Vec<(String, usize)>) {
+        all.push((n.node_name(), n.order()));
+        if let Some(attrs) = n.attributes() {
+            for a in attrs.iter() {
+                all.push((format!("@{}", a.node_name()), a.as_node().order()));
+            }
+        }
+        for c in n.child_nodes().iter() {
+            keys(&c, all);
+        }
+    }
+    let observed = guard(|| {
+        let (_, doc) = xml_dom::XmlDocument::from_raw("<r x='v'><a><b/>t</a><c/><d><e/><f/></d></r>").unwrap();
+        let r = doc.document_element().unwrap();
+        let a = r.child_nodes().item(0).unwrap();
+        let c = r.child_nodes().item(1).unwrap();
+        let d = r.child_nodes().item(2).unwrap();
+        match scenario {
+            "move_within_parent_before" => {
+                r.insert_before(d.clone(), Some(&a)).unwrap();
+            }
+            "move_within_parent_append" => {
+                r.append_child(a.clone()).unwrap();
+            }
+            "move_between_parents" => {
+                d.as_element().unwrap().append_child(a.clone()).unwrap();
+            }
+            "remove_then_reinsert" => {
+                r.remove_child(&c).unwrap();
+                r.insert_before(c.clone(), Some(&a)).unwrap();
+            }
+            "remove_subtree_drop_then_set_attribute" => {
+                {
+                    let gone = r.remove_child(&d).unwrap();
+                    drop(gone);
+                }
+                drop(d);
+                let _ = xml_xpath::query(doc.clone(), "//*", &mut Context::default());
+                r.set_attribute("z", "1").unwrap();
+            }
+            "replace_child" => {
+                let n = doc.create_element("n").unwrap();
+                r.replace_child(n.as_node(), &c).unwrap();
+            }
+            "append_fragment_like_sequence" => {
+                for name in ["p", "q"] {
+                    let n = doc.create_element(name).unwrap();
+                    a.as_element().unwrap().append_child(n.as_node()).unwrap();
+                }
+            }
+            _ => {
+                let t = a.child_nodes().item(1).unwrap().as_text().unwrap();
+                let t2 = t.split_text(0).unwrap();
+                r.append_child(t2.as_node()).unwrap();
+            }
+        }
+        if what == "views" {
+            let mut bad = vec![];
+            views(&doc.as_node(), &mut bad);
+            format!("disagreements: {:?}", bad)
+        } else {
+            let mut all = vec![];
+            keys(&doc.as_node(), &mut all);
+            let mut bad = vec![];
+            for (i, (name, k)) in all.iter().enumerate() {
+                if *k == 0 || all.iter().take(i).any(|(_, k2)| k2 == k) {
+                    bad.push(format!("{}={}", name, k));
+                }
+            }
+            format!("disagreements: {:?}", bad)
+        }
+    });
+    Outcome { observed, expected: "disagreements: []".into(), note: scenario.to_string() }
+}
+
 pub fn f64_grid() -> Vec<String> {
     let mut v: Vec<String> = vec![];
     for x in [
@@ -678,7 +788,7 @@ pub fn xpath_grid(rest: &[&str]) -> Vec<Args> {
         ["query", "node_test"] => {
             for q in ["count(/r/*)", "count(/r/node())", "count(/r/text())", "count(/r/comment())", "count(/r/processing-instruction())",
                       "count(/r/processing-instruction('p'))", "count(/r/processing-instruction('q'))", "count(/r/@*)", "count(//*)", "count(/r/b/*)",
-                      "count(/r/child::*)", "count(/r/descendant::*)", "count(/r/a/following-sibling::*)", "count(/r/b/preceding-sibling::*)"] {
+                      "count(/r/child::*)", "count(/r/descendant::*)", "count(/r/a/following-sibling::*)", "count(/r/b/preceding-sibling::*)", "count(/r/namespace::*)", "count(/r/namespace::node())"] {
                 out.push(mk(&[("query", q)]));
             }
         }
